@@ -3,6 +3,7 @@
    proved in coq/Proofs/, with Print Assumptions beneath. *)
 Require Import IP.Base.Bytes IP.DM.Value IP.Codec.Cbor IP.Codec.CborSpec.
 Require Import IP.Proofs.BytesFacts IP.Proofs.CborEnc IP.Proofs.CborDec IP.Proofs.CborCanon.
+Require IP.Gen.FromGo IP.Proofs.GoSort.
 From Coq Require Import Permutation.
 Open Scope N_scope.
 
@@ -58,6 +59,14 @@ Print Assumptions C02_length.
 Theorem C02_length_refuted_pinned : exists v, int_ok v /\ enc_len false v = Err LEIntRange.
 Proof. exists (DInt 9223372036854775808). split; [cbn; unfold two63z, two64z; lia|reflexivity]. Qed.
 Print Assumptions C02_length_refuted_pinned.
+
+(* Tie to the source beyond the run: the comparison closures marshalMap hands to sort.Slice, translated from
+   codec/dagcbor/marshal.go by gotrans on every run (Gen/FromGo.v), are exactly the key orders the model sorts
+   by — length first then bytewise for MapSortMode_RFC7049 (the registered codec), bytewise for _Lexical. *)
+Theorem C02_source_key_order : forall a b,
+  IP.Gen.FromGo.go_cbor_less_rfc7049 a b = rfc_ltb a b /\ IP.Gen.FromGo.go_cbor_less_lexical a b = bytes_ltb a b.
+Proof. exact (fun a b => conj (IP.Proofs.GoSort.cbor_less_rfc7049_is_model a b) (IP.Proofs.GoSort.cbor_less_lexical_is_model a b)). Qed.
+Print Assumptions C02_source_key_order.
 
 (* non-vacuity: a value with a nested map, a link-free list and boundary ints meets every hypothesis *)
 Example C02_hypotheses_satisfiable :
